@@ -83,6 +83,11 @@ def make(rng, sid):
     if relative:
         s.add("CD", h(b"/"))
         s.meta["relative"] = True
+    if rng.random() < 0.25:
+        # a permission requirement that every file and directory of the tree meets (files 0644, directories 0755) is in force:
+        # the callback is asked all the same
+        s.add("G", "perms", rng.choice(["004", "644"]), rng.choice(["001", "755"]))
+        s.meta["perms"] = True
     s.add("LOGOPEN", 1)
     gen_tree.emit_read(s, p, 0, cb=pol, entry=entry)
     if entry == "RH":
@@ -208,4 +213,6 @@ def histogram(s, lines):
     ks.append("consulted_%d" % min(len(m["consulted"]), 8))
     if m.get("dangling"):
         ks.append("dangling_link_among_the_drop_ins")
+    if m.get("perms"):
+        ks.append("permission_requirement_in_force")
     return ks
